@@ -605,6 +605,15 @@ def get_current_registers(commands: List[T_Cmd]) -> Set[str]:
         if not isinstance(command, ICmd):
             continue
         for op in command.operands:
-            if isinstance(op, Register):
-                current_registers.add(str(op))
+            # Registers can also occur as the index of an array entry or as the
+            # bounds of an array slice; a scratch register must avoid those too.
+            if isinstance(op, ArrayEntry):
+                candidates = [op.index]
+            elif isinstance(op, ArraySlice):
+                candidates = [op.start, op.stop]
+            else:
+                candidates = [op]
+            for candidate in candidates:
+                if isinstance(candidate, Register):
+                    current_registers.add(str(candidate))
     return current_registers
